@@ -30,8 +30,9 @@ pub fn setup_veth() {
     sh("ip link add veth0 type veth peer name veth1");
     sh("ip link set veth0 address 02:00:00:00:01:01 && ip link set veth1 address 02:00:00:00:01:02");
     sh("ip addr add 192.0.2.1/24 dev veth0");
-    sh("sysctl -q -w net.ipv6.conf.veth0.disable_ipv6=1 net.ipv6.conf.veth1.disable_ipv6=1 >/dev/null 2>&1 || true");
+    sh("sysctl -q -w net.ipv6.conf.veth0.accept_dad=0 net.ipv6.conf.veth1.accept_dad=0 net.ipv6.conf.veth0.router_solicitations=0 net.ipv6.conf.veth1.router_solicitations=0 >/dev/null 2>&1 || true");
     sh("ip link set veth0 up && ip link set veth1 up");
+    sh("ip -6 addr add 2001:db8:0:1::1/64 dev veth0 nodad");
 }
 
 // ------------------------------------------------------------ packet socket --
@@ -139,10 +140,57 @@ impl PacketSock {
         }
         None
     }
+    /// the next frame satisfying `pred` within `ms`
+    pub fn recv_match(&self, ms: u64, pred: impl Fn(&[u8]) -> bool) -> Option<Vec<u8>> {
+        let end = std::time::Instant::now() + std::time::Duration::from_millis(ms);
+        let mut buf = vec![0u8; 4096];
+        while std::time::Instant::now() < end {
+            let n = unsafe { libc::recv(self.fd, buf.as_mut_ptr() as *mut libc::c_void, buf.len(), 0) };
+            if n >= 14 && pred(&buf[..n as usize]) {
+                return Some(buf[..n as usize].to_vec());
+            }
+        }
+        None
+    }
     /// drop anything queued
     pub fn flush(&self) {
         while self.recv_dhcp(1).is_some() {}
     }
+}
+
+/// Ethernet + IPv6 + ICMPv6 (RFC 8200 / 4443); the checksum field of `icmp` is filled in here, so that the
+/// kernel hands the message to raw sockets whatever else is wrong with it
+pub fn icmp6_frame(srcmac: [u8; 6], dstmac: [u8; 6], src: std::net::Ipv6Addr, dst: std::net::Ipv6Addr, icmp: &[u8]) -> Vec<u8> {
+    let mut icmp = icmp.to_vec();
+    if icmp.len() >= 4 {
+        icmp[2] = 0;
+        icmp[3] = 0;
+        let mut pseudo = vec![];
+        pseudo.extend(src.octets());
+        pseudo.extend(dst.octets());
+        pseudo.extend((icmp.len() as u32).to_be_bytes());
+        pseudo.extend([0, 0, 0, 58]);
+        pseudo.extend(&icmp);
+        let c = csum(&pseudo);
+        icmp[2..4].copy_from_slice(&c.to_be_bytes());
+    }
+    let mut f = vec![];
+    f.extend(dstmac);
+    f.extend(srcmac);
+    f.extend([0x86, 0xdd]);
+    f.extend([0x60, 0, 0, 0]);
+    f.extend((icmp.len() as u16).to_be_bytes());
+    f.extend([58, 255]);
+    f.extend(src.octets());
+    f.extend(dst.octets());
+    f.extend(icmp);
+    f
+}
+
+const SERVER_LL6: &str = "fe80::ff:fe00:101";
+const CLIENT_LL6: &str = "fe80::ff:fe00:102";
+fn is_ra(f: &[u8]) -> bool {
+    f.len() >= 14 + 40 + 4 && f[12] == 0x86 && f[13] == 0xdd && f[14 + 6] == 58 && f[14 + 40] == 134
 }
 
 // -------------------------------------------------------------- DHCP client --
@@ -350,7 +398,7 @@ pub fn http(args: &[String]) {
     let rt = tokio::runtime::Builder::new_multi_thread().worker_threads(4).enable_all().build().unwrap();
     rt.block_on(async {
         let base = now_secs();
-        let yaml = format!("addresses: [192.0.2.1/24]\napi-listeners: [\"{}\", \"{}\", \"{}\", \"{}\", \"@{}\"]\n{}", TCP4, TCP6, TCPDUAL, UNIX_PATH, UNIX_ABSTRACT, OPEN_ACLS);
+        let yaml = format!("addresses: [192.0.2.1/24]\nrouter-advertisements: {{veth0: {{lifetime: 1h, prefixes: [{{prefix: \"2001:db8:0:1::/64\"}}]}}}}\napi-listeners: [\"{}\", \"{}\", \"{}\", \"{}\", \"@{}\"]\n{}", TCP4, TCP6, TCPDUAL, UNIX_PATH, UNIX_ABSTRACT, OPEN_ACLS);
         let conf = erbium::config::verif_load_config_from_string(&yaml).unwrap_or_else(|e| {
             eprintln!("rig: service configuration rejected: {}\n{}", e, yaml);
             std::process::exit(2)
@@ -374,8 +422,29 @@ pub fn http(args: &[String]) {
             eprintln!("rig: cannot start the API listeners: {}", e);
             std::process::exit(3)
         }
+        // the other two frame-facing services
+        let ra = match erbium::radv::RaAdvService::new(netinfo.clone(), conf.clone()) {
+            Ok(r) => Arc::new(r),
+            Err(e) => {
+                eprintln!("rig: cannot start the router advertisement service: {}", e);
+                std::process::exit(3)
+            }
+        };
+        let ra_task = tokio::spawn(async move {
+            let _ = ra.run().await;
+        });
+        let lldp_task = match erbium::lldp::LldpService::new() {
+            Ok(l) => tokio::spawn(async move {
+                l.run().await;
+            }),
+            Err(e) => {
+                eprintln!("rig: cannot start the LLDP service: {}", e);
+                std::process::exit(3)
+            }
+        };
         tokio::time::sleep(std::time::Duration::from_millis(100)).await;
         let sock = PacketSock::open("veth1");
+        let mut hostile_sent = 0u64;
         let mut xid = 0x1000u32;
         let mut offered: std::collections::HashMap<[u8; 6], [u8; 4]> = Default::default();
         for (ci, case) in cases.iter().enumerate() {
@@ -449,6 +518,57 @@ pub fn http(args: &[String]) {
                             }
                         }
                         out.emit(e);
+                    }
+                    "hostile" => {
+                        // WireGrammar cases as frames at the three frame-facing services
+                        for (i, c) in step["cases"].as_array().unwrap_or(&vec![]).iter().enumerate() {
+                            for (k, b) in crate::ingest::build(c) {
+                                let frame = match k {
+                                    "dhcp" => udp_frame([2, 0, 0, 9, (i >> 8) as u8, i as u8], [0xff; 6], [0, 0, 0, 0], 68, [255, 255, 255, 255], 67, &b),
+                                    "rs" | "ra" => icmp6_frame(CLIENT_IF_MAC, SERVER_MAC, CLIENT_LL6.parse().unwrap(), SERVER_LL6.parse().unwrap(), &b),
+                                    "lldp" => {
+                                        let mut f = vec![1, 0x80, 0xc2, 0, 0, 0x0e];
+                                        f.extend(CLIENT_IF_MAC);
+                                        f.extend([0x88, 0xcc]);
+                                        f.extend(&b);
+                                        f
+                                    }
+                                    _ => continue,
+                                };
+                                if frame.len() <= 1514 && tokio::task::block_in_place(|| sock.send(&frame)) {
+                                    hostile_sent += 1;
+                                }
+                            }
+                            if i % 32 == 31 {
+                                tokio::time::sleep(std::time::Duration::from_millis(3)).await;
+                            }
+                        }
+                        tokio::time::sleep(std::time::Duration::from_millis(200)).await;
+                    }
+                    "probe" => {
+                        // a valid request to each service must still be answered
+                        xid += 1;
+                        let chaddr = [2, 0, 0, 8, (xid >> 8) as u8, xid as u8];
+                        let d = dhcp_msg(xid, &chaddr, true, [0; 4], &[(53, vec![1]), (55, vec![1, 3, 6])]);
+                        let frame = udp_frame(chaddr, [0xff; 6], [0, 0, 0, 0], 68, [255, 255, 255, 255], 67, &d);
+                        let rs = icmp6_frame(CLIENT_IF_MAC, SERVER_MAC, CLIENT_LL6.parse().unwrap(), SERVER_LL6.parse().unwrap(), &[133, 0, 0, 0, 0, 0, 0, 0, 1, 1, 2, 0, 0, 0, 1, 2]);
+                        let (dhcp_ok, ra_ok) = tokio::task::block_in_place(|| {
+                            sock.flush();
+                            let a = sock.send(&frame) && sock.recv_dhcp(2000).map(|(_, p)| p.len() >= 8 && p[4..8] == xid.to_be_bytes()).unwrap_or(false);
+                            let b = sock.send(&rs) && sock.recv_match(2000, is_ra).is_some();
+                            (a, b)
+                        });
+                        let alive = !ra_task.is_finished() && !lldp_task.is_finished();
+                        let np = {
+                            let mut p = PANICS.lock().unwrap();
+                            let n = p.len();
+                            let first = p.first().cloned().unwrap_or_default();
+                            p.clear();
+                            (n, first)
+                        };
+                        let detail = if np.0 > 0 { np.1 } else if !alive { "a service task ended".to_string() } else { format!("dhcp answered: {}, router solicitation answered: {}", dhcp_ok, ra_ok) };
+                        out.emit(json!({"ev":"svc","case":ci,"hostile":hostile_sent,"panics":np.0,"alive":alive,"answered":dhcp_ok && ra_ok,"detail":detail}));
+                        hostile_sent = 0;
                     }
                     "insert" => {
                         // a row as an older version of erbium (or anything else sharing the file) may have left it
